@@ -36,10 +36,17 @@ func gen(tier string) []proto.Item {
 		bases = append(bases, bs{"zero", 0, 0, mkRand(0), 0}, bs{"wrap-late", 65300, 65533, mkRand(0xfffffffe), 0xffffff01})
 	}
 	cfgs := [][2]int{{300, 10}}
+	// the run's one random 32-bit sequence number (TCP SYN, default mode) at the very top of its range, whichever of the
+	// first random draws it is taken from
+	onesRand := append([]uint32{0xffffffff, 0xffffffff, 0xffffffff, 0xffffffff}, mkRand(0x3000)...)
 	for _, v := range proto.Variants {
 		vi := proto.Info(v)
 		for _, r := range ranges {
-			for _, b := range bases {
+			bs2 := bases
+			if vi.Kind == "tcp" {
+				bs2 = append(append([]bs{}, bases...), bs{"seq-all-ones", 1000, 50, onesRand, 0})
+			}
+			for _, b := range bs2 {
 				if b.name != "plain" && !(r.first == 1 && r.last == 255) && !(r.first == 254) {
 					continue
 				}
